@@ -19,7 +19,7 @@ from __future__ import annotations
 import ast
 
 from .. import astutil as A
-from ..alg import FragmentFault, Interp, Obj, Poly, RaisedInFragment, Undecided
+from ..alg import FragmentFault, Interp, Obj, Poly, RaisedInFragment, Undecided, to_poly
 from ..cfg import CFG
 from ..dep import Deps
 from .c01 import registry
@@ -294,6 +294,7 @@ def run(ctx):
         (PDF, "_nominal_and_modifiers_from_spec", "InvalidModifier", 1, "unknown modifier type"),
         (PDF, "_nominal_and_modifiers_from_spec", "InvalidModel", 2, "paramset name reuse / no parameters"),
     ]
+    _set_poi_interpreted(ctx, r6, repo)
     for rel, q, exc, count, what in wants:
         f = repo.func(rel, q)
         got = sum(1 for r in ast.walk(f.node) if isinstance(r, ast.Raise) and _exc(r) == exc)
@@ -301,6 +302,54 @@ def run(ctx):
             ctx.holds(r6, f"{rel}::{q}", f"{got} x raise {exc} ({what})")
         else:
             ctx.violated(r6, f, f"raise {exc}", f"the documented refusal ({what}) with {exc} is missing ({got} of {count} raise sites)", node=f.node)
+
+
+def _set_poi_interpreted(ctx, rid, repo):
+    """_ModelConfig.set_poi on a real configuration with real parameter sets of 1, 2 and 3 components"""
+    from ..objmodel import Instance, World
+    at, c = Poly.atom, Poly.const
+    PS_, MIX_ = "src/pyhf/parameters/paramsets.py", "src/pyhf/mixins.py"
+    mc = repo.cls(PDF, "_ModelConfig")
+    sp = mc.methods.get("set_poi")
+    if sp is None:
+        ctx.unrecognised(rid, mc, "_ModelConfig.set_poi", "not found")
+        return
+    errs = (Undecided, KeyError, TypeError, ValueError, IndexError, AttributeError)
+    pyhf_excs = set(repo.module("src/pyhf/exceptions/__init__.py").classes)
+    try:
+        psm = repo.module(PS_)
+        w = World({"__strict__": True}, module_env={"log": Obj("log"), "exceptions": Obj("exceptions"), "pyhf": Obj("pyhf")})
+        w.add_class(repo.cls(MIX_, "_ChannelSummaryMixin")).add_class(mc)
+        for c_ in psm.classes.values():
+            w.add_class(c_)
+
+        def pset(name, n):
+            return w.new(psm.classes["unconstrained"], [], {"name": name, "n_parameters": c(n), "inits": [at(f"{name}_i{j}") for j in range(n)], "bounds": [(at(f"{name}_l{j}"), at(f"{name}_h{j}")) for j in range(n)], "fixed": False, "is_scalar": n == 1})
+
+        sets = [("three", pset("three", 3)), ("mu", pset("mu", 1)), ("two", pset("two", 2))]
+        cfg = Instance(mc)
+        w.call_method(cfg, "__init__", [{"channels": [{"name": "c", "samples": [{"name": "s", "data": [at("d0")], "modifiers": [{"name": n_, "type": "normfactor" if n_ == "mu" else "shapefactor", "data": None} for n_, _ in sets]}]}]}], {})
+        w.call_method(cfg, "set_parameters", [{n_: p_ for n_, p_ in sets}])
+    except errs as e:
+        ctx.unrecognised(rid, sp, "_ModelConfig.set_poi", f"configuration not buildable: {type(e).__name__}: {e}")
+        return
+    for name, want in (("mu", ("accepted", 3)), ("two", ("InvalidModel", None)), ("three", ("InvalidModel", None)), ("not_declared", ("InvalidModel", None)), (None, ("accepted", None))):
+        site = f"{PDF}::_ModelConfig.set_poi({name!r}) [parameter sets of 3, 1 and 2 components]"
+        try:
+            w.call_method(cfg, "set_poi", [name])
+            idx = w.get_property(cfg, "poi_index")
+            got = ("accepted", None if idx is None else int(to_poly(idx).const_value()))
+        except RaisedInFragment as e:
+            got = (e.exc_name.split(".")[-1], None)
+        except errs as e:
+            ctx.unrecognised(rid, sp, f"set_poi({name!r})", f"not interpretable: {type(e).__name__}: {e}")
+            continue
+        if got == want:
+            ctx.holds(rid, site, f"{got[0]}" + (f", POI index {got[1]}" if got[0] == "accepted" else ""))
+        elif want[0] != "accepted" and got[0] not in pyhf_excs:
+            ctx.violated(rid, sp, f"set_poi({name!r})", "a parameter of interest that is undeclared or has several components is not refused with a pyhf exception", expected=want[0], found=str(got), node=sp.node)
+        else:
+            ctx.violated(rid, sp, f"set_poi({name!r})", "set_poi does not bind the POI to the single component of the named parameter / does not refuse what it must", expected=str(want), found=str(got), node=sp.node)
 
 
 def _exc(r):
